@@ -751,9 +751,14 @@ pub struct EventReader {
     max_seen_event_number: u64,
     next_max_seen_event_number: u64,
     /// Whether the originating Read/Subscribe request had `fabricFiltered=true`.
-    /// When set, fabric-sensitive events (those whose payload carries a
-    /// `FabricIndex` context-tag 254) are dropped if their fabric index does
-    /// not match the accessor's. See Matter Core spec.
+    ///
+    /// Not consulted for events: fabric-sensitive events (those whose payload
+    /// carries a `FabricIndex` context-tag 254) are dropped if their fabric index
+    /// does not match the accessor's whatever the request asked for - the
+    /// `isFabricFiltered` field of a request only governs which entries of
+    /// fabric-scoped lists are returned. Kept so that `EventReader::new` keeps
+    /// its signature.
+    #[allow(dead_code)]
     fabric_filtered: bool,
 }
 
@@ -816,7 +821,9 @@ impl EventReader {
         accessor: &Accessor<'_>,
         tw: &mut WriteBuf<'_>,
     ) -> Result<bool, Error> {
-        if self.fabric_filtered && !Self::matches_fabric(&event, accessor) {
+        // A fabric-sensitive event of another fabric is never reported, also not
+        // to a requester that cleared `isFabricFiltered` in its request
+        if !Self::matches_fabric(&event, accessor) {
             return Ok(false);
         }
 
@@ -832,10 +839,11 @@ impl EventReader {
         }
     }
 
-    /// Per Matter Core spec (Fabric-Sensitive Reporting):
-    /// When `fabricFiltered=true`, fabric-sensitive events (those whose payload
-    /// carries a `FabricIndex` field at context tag 254) SHALL only be reported
-    /// to the requesting fabric.
+    /// Per Matter Core spec (Fabric-Sensitive quality):
+    /// fabric-sensitive events (those whose payload carries a `FabricIndex`
+    /// field at context tag 254) SHALL only be reported to the fabric they are
+    /// associated with, independently of the `isFabricFiltered` field of the
+    /// request.
     ///
     /// Events without a `FabricIndex` field are not fabric-sensitive and pass
     /// through unfiltered. Events with a `FabricIndex` field that matches the
